@@ -270,6 +270,10 @@ int world_new_sessions(world_t *w)
     memset(&co, 0, sizeof(co));
     so.versionFlag = ver_flag(c->ver);
     co.versionFlag = ver_flag(cver);
+    if (c->ocsp)
+    {
+        co.OCSPstapling = 1;
+    }
     if (cver == V_MULTI)
     {
         static const psProtocolVersion_t all[] = { v_tls_1_3, v_tls_1_2, v_tls_1_1 };
